@@ -59,6 +59,9 @@ def run_case(case) -> List[Tuple[str, str]]:
     # order of the tasks, as the sequential loop does)
     hv0 = sum(len(g_) for g_ in case["gsets"]) + case["workers"] + case["limit"]
     agents = [[f"A{i + 1}" for i in range(3)], ["zulu", "Mike", "alpha"], ["A2", "A10", "A1"]][hv0 % 3][:n]
+    if case.get("dup"):
+        # every task belongs to ONE agent (a second task of an agent depends on the first one's commit)
+        agents = [agents[0]] * n
     sizes = case["size"]
     fails: List[Tuple[str, str]] = []
     work = tempfile.mkdtemp(prefix="c10_", dir=case["workdir"])
@@ -202,6 +205,18 @@ def run_case(case) -> List[Tuple[str, str]]:
             fails.append(("FinalStateEqual", f"{where}: kill switch on, but the batch driver applied {b['applied']}, version {b['version']!r}, "
                                              f"{len(b['files'].get('apply.jsonl', []))} apply record(s), snapshots {sorted(b['snaps'])}; "
                                              f"the sequential loop: applied {l['applied']}, version {l['version']!r}"))
+        if case.get("dup"):
+            # two tasks of one agent: the model's agents are distinct, so only the batching rule is judged here - tasks that
+            # were computed against the same pre-commit state form one batch, and one agent's graphs overlap themselves
+            if not b["raised"]:
+                per_seen: Dict[int, int] = {}
+                for agent, dry, seen in b["computes"]:
+                    if dry:
+                        per_seen[seen] = per_seen.get(seen, 0) + 1
+                if any(v_ > 1 for v_ in per_seen.values()) and case["gsets"][0]:
+                    fails.append(("OverlapNeverSameBatch", f"{where}: {n} tasks of the one agent {agents[0]!r} (graphs {case['gsets'][0]}): {max(per_seen.values())} of them were "
+                                                           f"computed against the same pre-commit state in one batch"))
+            return fails
         # ---- the model's prediction for the batch path ----
         if b["raised"]:
             fails.append(("IndependentOfStagingLimit" if "BACKPRESSURE" in b["raised"] else "ResultsEqual", f"{where}: driver raised {b['raised']}"))
@@ -332,6 +347,8 @@ def check(run) -> None:
             if k % 6:
                 continue
         cases.append(dict(c, workdir=run.workdir))
+        if len(c["gsets"]) >= 2 and c["gsets"][0] and c["workers"] >= 2 and not c.get("kill") and len(cases) % 7 == 0:
+            cases.append(dict(c, workdir=run.workdir, dup=True))
     run.extra["cases_in_model"] = len(all_cases)
     outs = pmap(run_case, cases, chunk=8)
     for c, fails in zip(cases, outs):
@@ -341,7 +358,7 @@ def check(run) -> None:
         if not fails:
             run.ok("AgentBatch.conforms")
         for clause, msg in fails:
-            cause = "dropped-task" if clause == "NothingDropped" else ("oversized-record" if "BACKPRESSURE" in msg else ("snapshot-path" if "snapshot" in msg else "other"))
+            cause = "same-agent-twice" if c.get("dup") else "dropped-task" if clause == "NothingDropped" else ("oversized-record" if "BACKPRESSURE" in msg else ("snapshot-path" if "snapshot" in msg else "other"))
             run.fail(clause, {"clause": clause, "variant": "contract", "cause": cause}, cc, msg, replay={"case": cc})
     run.sample({"case": {k: v for k, v in cases[len(cases) // 2].items() if k != "workdir"}}, cap=2)
     fails = real_pipeline_case({"workdir": run.workdir})
